@@ -394,7 +394,7 @@ func (e *Enc) sort0(t types.Type) string {
 	case "cosmossdk.io/math.Int", "cosmossdk.io/math.Uint":
 		return "Int"
 	case "cosmossdk.io/math.LegacyDec":
-		return "Real"
+		return "Int" // value * 10^18 (18-decimal fixed point), see intrinsics_coin.go
 	case "time.Time", "time.Duration":
 		return "Int"
 	case "math/big.Int":
